@@ -46,6 +46,8 @@ def M(cmd, obj="", run="", a="", **kw):
         args = [1]
     elif cmd == "configure":
         args = [{}]
+    elif cmd in ("install_suspender", "remove_suspender"):
+        args = [a]          # the suspender's name: replaced by the object when the plan is built
     if cmd == "set":
         args = [kw.get("value", 1)]
     if args:
@@ -120,11 +122,14 @@ PROGRAMS = {
                           M("create", run="k2", a="primary"), M("read", "det2", run="k2"), M("save", run="k2"), M("null"), M("null"),
                           M("checkpoint"), M("create", run="k2", a="primary"), M("read", "det2", run="k2"), M("save", run="k2"),
                           M("unmonitor", "mon1", run="k1"), M("close_run", run="k1"), M("close_run", run="k2")]},
+    # a suspender installed / removed by the plan itself (Msg('install_suspender') / Msg('remove_suspender'))
+    "susmsg": {"msgs": [M("open_run"), M("checkpoint"), M("install_suspender", a="s1")] + _point + [M("checkpoint"), M("remove_suspender", a="s1"),
+                        M("null"), M("close_run")]},
     "cfginb": {"msgs": [M("open_run"), M("checkpoint"), M("create", a="primary"), M("read", "det"), M("configure", "det"), M("save"), M("close_run")]},
 }
 ASYNC_PLANS = {"amove", "aopen"}      # devices whose stop()/pause()/resume() are coroutines that really suspend
 MULTI_RUN_PLANS = {"multi", "multimon", "dupopen"}
-NOT_CONFORMANCE = {"multimon"}        # use commands RE.tla does not model (yet): monitored only
+NOT_CONFORMANCE = set()        # use commands RE.tla does not model (yet): monitored only
 
 BUILTINS = {
     "count": {"builtin": "count", "args": {"dets": ["det"], "num": 2}},
@@ -496,8 +501,8 @@ def build_corpus(tier, only=None):
             key = key.rsplit("|", 1)[0]
         exp = base.get(key, []) if "|nori" not in r["id"] else base.get(key, [])
         out.append({"id": r["id"], "events": exp + r["events"], "outcomes": r["outcomes"], "final": r["final"],
-                    "conf": r["id"].split("|")[0] not in NOT_CONFORMANCE
-                            and not r["id"].startswith("rb") and not r["id"].startswith("mon|notify") and not r["id"].startswith("2call:") and "clear_sub:raise" not in r["id"]})
+                    # (device behaviours RE.tla does not model: a signal that calls back at subscribe time, a failing clear_sub)
+                    "conf": r["id"].split("|")[0] not in NOT_CONFORMANCE and not r["id"].startswith("mon|notify") and "clear_sub:raise" not in r["id"]})
     return {"traces": out, "wall": time.time() - t0}
 
 
@@ -604,6 +609,25 @@ def suspender_scenarios(tier):
         # A0. trips in the window between RE(...) consulting the suspenders and the run task's first step
         out.append(mk(plan, "trip@startup,put0@3", {"sig1": 0, "sig2": 0}, [["sus_install", "s1", 0]],
                       [{"at": "startup", "kind": "sig_put", "arg": "sig1", "value": 1}, {"at": 3, "kind": "sig_put", "arg": "sig1", "value": 0}]))
+        # A1. the plan installs the suspender itself while its signal is already high (trips at once), released / removed later;
+        #     and trips / releases around the plan's own install and remove
+        if plan == "simple":
+            b0 = base_scenario("susmsg")
+            b0.update({"signals": {"sig1": 0, "sig2": 0}, "suspenders": sus})
+            nn = run_one(b0)["points"] + 3
+
+            def mk2(tag, before, inj):
+                sc = base_scenario("susmsg")
+                sc.update({"id": f"sus:susmsg|{tag}", "signals": {"sig1": 0, "sig2": 0}, "suspenders": sus, "before": before, "inject": inj,
+                           "decisions": ["resume"] * 3, "timeout": 6})
+                return sc
+            # (installing an ALREADY TRIPPED suspender from the plan fails with RuntimeError("Could not create the ...") because
+            #  SuspenderBase.__make_event waits on the loop thread for a callback that only the loop thread can run: a defect
+            #  outside the listed properties, see DESIGN.md 8.3; the scenarios below trip the suspender after its installation)
+            for p in range(6, nn if not quick else min(nn, 16)):
+                out.append(mk2(f"trip@{p},put0@{p + 3}", [], [{"at": p, "kind": "sig_put", "arg": "sig1", "value": 1},
+                                                              {"at": p + 3, "kind": "sig_put", "arg": "sig1", "value": 0},
+                                                              {"at": "blocked", "kind": "sig_put", "arg": "sig1", "value": 0}]))
         # A'. paused while held by the tripped suspender; the suspender is removed / released while paused; then resume
         for p in range(0, 2):      # (only points 0 and 1 exist before the engine blocks on the tripped suspender)
             for dec in ("sus_remove:s1", "sig_put:sig1:0"):
